@@ -155,15 +155,41 @@ fn roundtrip<T: Serialize + DeserializeOwned>(tyname: &str, honest: &T) {
     for (nm, f) in invariants(tyname, &sat, nh) {
         eng::prove_under(&format!("C15 decoded {}", nm), &format!("C15 invariant-violated {}", tyname), &hy, &f);
     }
+    let honest_fps: std::collections::HashSet<u64> = ds.iter().map(|d| sx::fingerprint(&d.cond)).collect();
     for k in 0..ds.len() {
         let mut seq: Vec<bool> = ds[..k].iter().map(|d| d.outcome).collect();
         seq.push(!ds[k].outcome);
         sx::set_label("decode-flip");
+        let nk = sx::n_decisions();
         sx::force_seq(seq);
         let r = decode::<T>(&sb);
         sx::force_seq(vec![]);
         if r.is_some() {
             eng::finding(&format!("C15 validation-ignored {}", tyname), &format!("{}: decode-time check #{} can fail and the value is still accepted", tyname, k), None, json!({"kind":"model"}));
+            continue;
+        }
+        // follow-up: a comparison the accepting run never made exists only because check #k failed (the right operand of an
+        // `||`, a fallback branch).  If decoding succeeds when it goes the other way, that is a second accepting path: the
+        // type's invariants must hold on it as well.
+        let ds2 = decisions_since(nk);
+        for j in (k + 1)..ds2.len() {
+            if honest_fps.contains(&sx::fingerprint(&ds2[j].cond)) {
+                continue;
+            }
+            let mut seq2: Vec<bool> = ds2[..j].iter().map(|d| d.outcome).collect();
+            seq2.push(!ds2[j].outcome);
+            sx::set_label("decode-flip2");
+            let (n2, nh2) = (sx::n_decisions(), sx::n_hashes());
+            sx::force_seq(seq2);
+            let r2 = decode::<T>(&sb);
+            sx::force_seq(vec![]);
+            if r2.is_some() {
+                let mut hy2 = eng::axioms();
+                hy2.extend(decisions_since(n2).iter().map(|d| d.cond.clone().with_outcome(d.outcome)));
+                for (nm, f) in invariants(tyname, &sat, nh2) {
+                    eng::prove_under(&format!("C15 decoded {} (accepting path: check #{} fails, fallback #{} taken)", nm, k, j), &format!("C15 invariant-violated {}", tyname), &hy2, &f);
+                }
+            }
         }
     }
     // (c) each atom replaced by an encoding that is not canonical / on the curve / in the subgroup: must be refused
